@@ -488,7 +488,7 @@ def oracle_c07(inst, o, targets):
 # --------------------------------------------------------------------------- exploration of one instance
 
 
-def run_instance(inst, max_exec=200000, bound=None, want=("C04", "C05", "C06", "C07", "C08"), well_posed=None, model=True, reuse=False):
+def run_instance(inst, max_exec=200000, bound=None, want=("C04", "C05", "C06", "C07", "C08"), well_posed=None, model=True, reuse=False, max_seconds=None):
     """reuse=True: the molecule is parsed ONCE and the same object generates every execution (state kept between
     generations of one object then shows up in the per-execution oracles and in the outcome distribution)"""
     import gbigsmiles
@@ -533,7 +533,14 @@ def run_instance(inst, max_exec=200000, bound=None, want=("C04", "C05", "C06", "
         stats["model_transitions"] += gm.transitions
         return model_out[key], gm
 
+    import time as _time
+
+    t_start = _time.time()
+    timed_out = False
     for rng, (status, payload) in explore(run, bound=bound, max_exec=max_exec, menu=inst.menu):
+        if max_seconds is not None and _time.time() - t_start > max_seconds:
+            timed_out = True  # budget of this instance used up: reported as capped (not exhaustive), never as a verdict
+            break
         stats["execs"] += 1
         stats["points"] += len(rng.points)
         stats["maxdepth"] = max(stats["maxdepth"], len(rng.points))
@@ -577,7 +584,7 @@ def run_instance(inst, max_exec=200000, bound=None, want=("C04", "C05", "C06", "
         for (prop, code, what) in per:
             if prop in want:
                 viols.setdefault(f"{prop}|{code}|{inst.family}", (f"{inst.text}: {what}", script))
-    stats["capped"] = bool(explore.capped)
+    stats["capped"] = bool(explore.capped) or timed_out
     stats["outcomes"] = len(dist)
     stats["draw_counts"] = sorted(ndraws_seen)
 
